@@ -3,6 +3,7 @@ package c02
 import (
 	"fmt"
 	"hash/fnv"
+	"os"
 	"strconv"
 	"strings"
 
@@ -68,6 +69,10 @@ func modeProg(p *irjs.Node, strict bool) *irjs.Node {
 
 const gojaStepBudget = 200000
 
+// traceFile (env C02_TRACE, development aid): the script about to be compiled and run is written there, so that
+// the input of an unrecoverable Go fatal error (out of memory, stack exhaustion) can be identified.
+var traceFile = os.Getenv("C02_TRACE")
+
 // engine runs compiled programs on the engine under test. Function / arrow / eval placements reuse one runtime
 // (the names a program may leak into the global object are deleted afterwards); global-code placements get a
 // fresh runtime each (global lexical declarations cannot be undone).
@@ -117,6 +122,9 @@ func hashString(s string) uint64 {
 
 // run compiles and executes one script. names = identifiers the program may have leaked into the global object.
 func (e *engine) run(script string, pl Placement, names []string, wantDump bool) (out runOut) {
+	if traceFile != "" {
+		os.WriteFile(traceFile, []byte(script), 0o644)
+	}
 	prg, err := goja.Compile("case.js", script, false)
 	if err != nil {
 		out.compileErr = err.Error()
